@@ -179,6 +179,9 @@ pub enum Op {
     DropAll,
     Await { slot: u16, by_ref: bool },
     Join { slot: u16, cancel: Option<u8> },
+    /// create a join future, poll it up to `polls` times, then keep it (un-polled) in a new slot; a later
+    /// `Join` on that slot resumes it
+    JoinPark { slot: u16, polls: u8 },
     Query { slot: u16, running: bool },
     Yield,
     Sleep(u64),
